@@ -1,5 +1,5 @@
 """Property registry: id -> configuration (which machinery decides it)."""
-from . import runtime_check, props_h1, mid_check, conc_check
+from . import runtime_check, props_h1, mid_check, conc_check, tool_check
 from .h1 import P
 from .props_h1 import *
 
@@ -26,6 +26,12 @@ PROPS = {
     "C02": h1prop("PigeonVerif.Properties.C02", P(["trace_ctx"]),
                   [("blocks", 5000, 150000), ("state", 2000, 50000), ("memo", 1000, 30000), ("lr", 1000, 30000), ("utf8", 1000, 20000)],
                   oracles=[orc_c02]),
+    "C03": dict(module="PigeonVerif.Properties.C03", run=tool_check.run_c03, level="other",
+                rule="generated ASTs (all 18 expression kinds, display names, labels, code blocks with nested braces/strings/comments, classes with escapes and Unicode classes) printed in random concrete spellings (4 definition operators, 3 literal quotings with every escape form, comments/whitespace in every position, minimal or redundant parentheses); distinct = distinct text; each text parsed by the real front-end through the verif hook and compared with the expected AST incl. positions, then re-printed and re-parsed",
+                explanation="differential round trip on generated grammar texts (execution) + a kernel-checked round-trip theorem for the character-class extraction phase"),
+    "C04": dict(module="PigeonVerif.Properties.C04", run=tool_check.run_c04, level="other",
+                rule="generated well-formed grammars with compilable Go code blocks x flag sets (quick: 4 random sets per grammar; thorough: all 32 combinations of the five generation switches plus -cache / -receiver-name variants): pigeon, then go vet + go build of all packages of a batch in one module, then every binary is run (init must not panic) and its printed results compared across flag sets; every generated method is checked against the labels in scope",
+                explanation="compiles/vets/initialises is a statement about the Go toolchain: decided by execution; Lean covers the method naming scheme (not injective: known finding D4)"),
     "C05": h1prop("PigeonVerif.Properties.C05", P(["trace_stores", "stores", "val"]),
                   [("state", 5000, 150000), ("blocks", 1500, 40000), ("lr", 1000, 30000), ("panic", 500, 10000)]),
     "C06": h1prop("PigeonVerif.Properties.C06", P(["val", "errs", "cnt", "choices", "trace_ctx"]),
@@ -45,6 +51,9 @@ PROPS = {
                   [("panic", 3000, 90000), ("blocks", 2500, 60000), ("lr", 4000, 100000), ("utf8", 500, 10000)], oracles=[orc_c11]),
     "C12": h1prop("PigeonVerif.Properties.C12", P(["errs", "mf"]),
                   [("core", 5000, 150000), ("utf8", 1000, 30000), ("throw", 1000, 30000), ("lr", 1000, 20000)], oracles=[orc_c12]),
+    "C13": dict(module="PigeonVerif.Properties.C13", run=tool_check.run_c13, level="other",
+                rule="the real pigeon binary (fresh process, 10 s timeout) on valid generated grammars, token/byte mutations, splices, truncations and raw bytes x random flag sets; classified: exit status in the documented set, no panic trace, no hang, exit 0 => output parses as Go, exit 0 never for a text the front-end rejects, non-zero => diagnostic on stderr",
+                explanation="totality of the tool is decided by execution on generated and mutated inputs; Lean covers the exit-status decision logic of main()"),
     "C14": h1prop("PigeonVerif.Properties.C14", P(["val", "pos", "noerr", "errs", "trace_blks"]),
                   [("throw", 6000, 200000)]),
     "C15": h1prop("PigeonVerif.Properties.C15", P(["val", "pos", "errs", "mf"]),
@@ -57,4 +66,7 @@ PROPS = {
                   [("utf8", 6000, 200000)], oracles=[orc_c17]),
     "C18": dict(module="PigeonVerif.Properties.C18", run=conc_check.run_c18, level="other"),
     "C19": dict(module="PigeonVerif.Properties.C19", run=mid_check.run_c19, level="proof"),
+    "C20": dict(module="PigeonVerif.Properties.C20", run=tool_check.run_c20, level="other",
+                rule="(a) grammars in the bootstrap subset parsed by bootstrap.Parser in-process and by the generated front-end through the verif hook, ASTs compared modulo positions and display-name quoting, plus the two checked-in grammars; (b) EXHAUSTIVE over the artifact set: copy of the working tree, make clean all, byte comparison of every tracked file",
+                explanation="(b) is a finite ground statement decided completely by recomputation; (a) is differential; Lean covers the one place where the two scanners are known to differ"),
 }
